@@ -221,3 +221,35 @@ func tail(s string, n int) string {
 	}
 	return s
 }
+
+// ShrinkGuard bounds the time rapid spends shrinking a failure. rapid checks its own
+// shrink deadline only between passes, and one pass over a large case can take minutes.
+// After the first failure the guard starts a clock; once it has run out, candidates that
+// have not already been seen failing are skipped (a skipped candidate counts as "not
+// failing", so the shrinker stops making progress and finishes), while cases already known
+// to fail keep failing, so the final re-run of the minimal case still fails.
+type ShrinkGuard struct {
+	Budget   time.Duration
+	deadline time.Time
+	failed   map[uint64]string
+}
+
+// Known returns the recorded failure of a case seen before.
+func (g *ShrinkGuard) Known(key uint64) (string, bool) {
+	w, ok := g.failed[key]
+	return w, ok
+}
+
+// Record notes a failing case and starts the clock at the first one.
+func (g *ShrinkGuard) Record(key uint64, what string) {
+	if g.failed == nil {
+		g.failed = map[uint64]string{}
+		g.deadline = time.Now().Add(g.Budget)
+	}
+	g.failed[key] = what
+}
+
+// Expired reports whether shrinking has used up its budget.
+func (g *ShrinkGuard) Expired() bool {
+	return g.failed != nil && time.Now().After(g.deadline)
+}
